@@ -2,6 +2,7 @@
 
 from __future__ import annotations
 
+import os
 import sys
 import threading
 import time
@@ -94,6 +95,58 @@ def wait_idle(activity=None, timeout=10.0, settle=0.002, samples=2, ignore=()):
         prev = cur if idle else None
         time.sleep(settle)
     return False
+
+
+def patience(seconds, cap=8.0):
+    """A real-time allowance scaled with the load of the machine (1-minute load average per core, doubled; between 1 and `cap`).
+
+    Used only for waits that end early when the awaited thing happens, so on a healthy tree and an idle machine it costs
+    nothing; on an overloaded machine it keeps 'too slow' from being reported as 'never'."""
+    try:
+        factor = 2.0 * os.getloadavg()[0] / (os.cpu_count() or 1)
+    except OSError:
+        factor = 1.0
+    return seconds * max(1.0, min(cap, factor))
+
+
+class _Canary:
+    """A harness thread that answers pings: one round trip takes as long as the OS (and the GIL) currently need to run a thread
+    that was just woken.  Idle detection uses it to scale its patience with the load of the machine: a library thread woken by
+    Event.set / Queue.put looks parked until it is scheduled, and on a busy machine that can exceed any fixed grace period."""
+
+    def __init__(self):
+        self.req = threading.Event()
+        self.ack = threading.Event()
+        self.lock = threading.Lock()
+        self.thread = None
+
+    def _run(self):
+        register_harness_thread()
+        while True:
+            self.req.wait()
+            self.req.clear()
+            self.ack.set()
+
+    def roundtrips(self, n=3, cap=1.0):
+        with self.lock:
+            if self.thread is None or not self.thread.is_alive():
+                self.thread = threading.Thread(target=self._run, daemon=True, name="harness-canary")
+                register_harness_thread(self.thread)
+                self.thread.start()
+            t0 = time.monotonic()
+            for _ in range(n):
+                self.ack.clear()
+                self.req.set()
+                self.ack.wait(cap)
+            return time.monotonic() - t0
+
+
+_canary = _Canary()
+
+
+def scheduler_roundtrips(n=3, cap=1.0):
+    """Wake a parked harness thread n times and wait for it each time; returns the seconds that took."""
+    return _canary.roundtrips(n, cap)
 
 
 def blocked_forever(threads, watch=1.0, samples=5):
